@@ -114,10 +114,18 @@ class _Service(httpx.AsyncBaseTransport):
             raise httpx.ReadTimeout('injected: timed out')
         raise httpx.ReadError('injected: connection dropped')
 
-    def _status_response(self, fault):
+    def _status_response(self, fault, request=None):
         parts = fault.kind.split(':')
         code = int(parts[1])
         headers = {}
+        if 300 <= code < 400 and request is not None:
+            # a gateway bouncing the request to another spelling of the resource / to another host
+            raw = request.url.raw_path.decode('latin-1')
+            sep = '&' if '?' in raw else '?'
+            other = parts[2] if len(parts) > 2 else ''
+            host = request.headers.get('host', 'unknown')
+            headers['location'] = (f'{request.url.scheme}://{other}{raw}' if other else f'{request.url.scheme}://{host}{raw}{sep}redirected=1')
+            parts = parts[:2]
         if len(parts) > 2:
             headers['retry-after'] = parts[2]
         body = self.error_body(code, fault.code)
@@ -155,13 +163,13 @@ class _Service(httpx.AsyncBaseTransport):
             if fault.kind.startswith('status:'):
                 # the service answers without applying the request; the body is still drained
                 await self._read_body(request, None)
-                return self._status_response(fault)
+                return self._status_response(fault, request)
             self._raise(fault)
         body = await self._read_body(request, fault if is_upload else None)
         resp = await self.serve(op, request, body)
         if fault is not None and fault.lost_response:
             if fault.kind.startswith('status:'):
-                return self._status_response(fault)
+                return self._status_response(fault, request)
             self._raise(fault)
         if fault is not None and fault.after_chunks is not None and request.method in ('GET',):
             # mid-download fault: cut the response body after some chunks
